@@ -22,6 +22,7 @@ RULE = ("angles from a grid over [-720, 720] degrees plus random ones, degrees/r
 ASSUMPTIONS = ["the 2D axis_and_angle_of_rotation reporting |theta| for negative theta is a known finding pinned by the suite; any other wrong angle is a violation",
                "about-centre builders are judged with transforms that have no translation of their own"]
 DECIDING_TAPS = ["ccw_constructor", "axis_and_angle_of_rotation", "about_centre", "Scale", "tcoords"]
+REPLAY_PATHS = ['menpo/transform/test', 'menpo/image/test', 'menpo/shape']      # suite replay (thorough tier): the repository's own tests under these monitors
 SHARDS = {"quick": 8, "thorough": 16}
 
 
